@@ -425,6 +425,33 @@ func c05Ops() []msOp {
 		}, build: func(s []ro.Observable[int], set *recSet, out *h.Rec) ro.Subscription {
 			return subInner(ro.GroupBy(func(v int) int { return v % 2 })(s[0]), set, out, late, "group")
 		}})
+		// three keys and longer scripts (an old key, a new key, the old one again, the new one again, ...)
+		ops = append(ops, msOp{name: "GroupBy(v%3)" + sfx, k: 1, late: late, model: func() *msModel {
+			m := &msModel{sub: allSub(1)}
+			idx := map[int]int{}
+			m.step = func(m *msModel, src int, e h.Ev) {
+				switch e.K {
+				case h.N:
+					k := e.V.(int) % 3
+					if _, ok := idx[k]; !ok {
+						idx[k] = len(m.inner)
+						m.inner = append(m.inner, []h.Ev{})
+						m.inner[idx[k]] = append(m.inner[idx[k]], e)
+						m.emit(h.Nx("group"))
+						return
+					}
+					m.inner[idx[k]] = append(m.inner[idx[k]], e)
+				default:
+					m.emit(e)
+					for i := range m.inner {
+						m.inner[i] = append(m.inner[i], e)
+					}
+				}
+			}
+			return m
+		}, build: func(s []ro.Observable[int], set *recSet, out *h.Rec) ro.Subscription {
+			return subInner(ro.GroupBy(func(v int) int { return v % 3 })(s[0]), set, out, late, "group")
+		}})
 	}
 	return ops
 }
@@ -863,7 +890,11 @@ func init() {
 				if op.k == 3 {
 					al = al[:1] // one letter per source keeps the 3-source tuples enumerable at full length
 				}
-				for _, w := range c05Scripts(al, maxVals) {
+				mv := maxVals
+				if strings.HasPrefix(op.name, "GroupBy(v%3)") {
+					al, mv = []interface{}{1, 2, 3}, maxVals+2 // three keys, scripts long enough to come back to a key twice
+				}
+				for _, w := range c05Scripts(al, mv) {
 					build(i+1, append(cur, w))
 				}
 			}
